@@ -11,6 +11,8 @@ import (
 	"fmt"
 	"io"
 	"os"
+	"regexp"
+	"sort"
 	"strings"
 	"sync"
 	"testing"
@@ -896,4 +898,123 @@ func TestVerif_C04_Nested(t *testing.T) {
 	lib.Run(t, lib.Spec{ID: "C04", Part: "nested-documents",
 		Rule: "a corpus of one synthetic document of 2-8 lines and 1-3 further documents that are line ranges of it (preferably its last or first line); input = the big document verbatim / behind or before a line of other words / with one word replaced; Match is repeated 30 times on the same classifier and on separately built instances with rotated insertion order: all calls identical; non-trivial = a license match is reported",
 		New:  func() interface{} { return &c04Nest{} }, Gen: c04NestGen, Check: c04NestCheck})
+}
+
+// ------------------------------------------------------------------ rare words replaced, repeated
+
+// The words that set one license apart from its neighbours (names, "acknowledgment", "library", "affero" ...) are the
+// ones special rules in the scorer look at. Every corpus document is matched with one of its rarest words (by
+// document frequency over the corpus) replaced by an unrelated word, several times in a row: the answer may be
+// anything, but it has to be the same answer every time.
+type c04Rare struct {
+	Doc   int `json:"doc"`
+	Rank  int `json:"rank"` // the Rank-th rarest word of the document is replaced
+	Times int `json:"times"`
+}
+
+var (
+	c04DFOnce sync.Once
+	c04DF     map[string]int
+)
+
+func c04DocFreq() map[string]int {
+	c04DFOnce.Do(func() {
+		c04DF = map[string]int{}
+		for _, f := range assets() {
+			seen := map[string]bool{}
+			for _, w := range strings.Fields(strings.ToLower(string(f.Content))) {
+				w = strings.Trim(w, ".,;:()\"'[]<>*")
+				if len(w) >= 3 && !seen[w] {
+					seen[w] = true
+					c04DF[w]++
+				}
+			}
+		}
+	})
+	return c04DF
+}
+
+func c04RareWords(content []byte) []string {
+	df := c04DocFreq()
+	seen := map[string]bool{}
+	var ws []string
+	for _, w := range strings.Fields(strings.ToLower(string(content))) {
+		w = strings.Trim(w, ".,;:()\"'[]<>*")
+		if len(w) >= 3 && !seen[w] && asciiLetters(w) == w {
+			seen[w] = true
+			ws = append(ws, w)
+		}
+	}
+	sort.Slice(ws, func(i, j int) bool {
+		if df[ws[i]] != df[ws[j]] {
+			return df[ws[i]] < df[ws[j]]
+		}
+		return ws[i] < ws[j]
+	})
+	return ws
+}
+
+func c04RareEnum(yield func(interface{}) bool) {
+	shard, nshards := lib.EnvInt("VERIF_SHARD", 0), lib.EnvInt("VERIF_NSHARDS", 1)
+	ranks, times := 5, 5
+	if lib.Tier() == "thorough" {
+		ranks, times = 12, 10
+	}
+	idx := 0
+	for d, f := range assets() {
+		if len(f.Content) > 40000 && lib.Tier() != "thorough" {
+			continue
+		}
+		for r := 0; r < ranks; r++ {
+			idx++
+			if idx%nshards != shard {
+				continue
+			}
+			if !yield(&c04Rare{Doc: d, Rank: r, Times: times}) {
+				return
+			}
+		}
+	}
+}
+
+func c04RareCheck(ci interface{}) lib.Outcome {
+	c := ci.(*c04Rare)
+	a := assets()
+	if c.Doc < 0 || c.Doc >= len(a) || c.Rank < 0 || c.Times < 2 || c.Times > 100 {
+		return lib.Outcome{Skip: "malformed"}
+	}
+	f := a[c.Doc]
+	ws := c04RareWords(f.Content)
+	if c.Rank >= len(ws) {
+		return lib.Outcome{Skip: "document-has-fewer-distinct-words"}
+	}
+	word := ws[c.Rank]
+	cl := classifierFor(0.8, corpusSel{Full: true})
+	re := regexp.MustCompile(`(?i)\b` + regexp.QuoteMeta(word) + `\b`)
+	in := re.ReplaceAll(f.Content, []byte("zzreplacedword"))
+	first := cl.Match(in)
+	fs := resultString(first)
+	for k := 1; k < c.Times; k++ {
+		if got := cl.Match(in); resultString(got) != fs {
+			return lib.Outcome{Violation: fmt.Sprintf("%s with the word %q replaced (document frequency %d): call %d on the same classifier differs from call 1\n%s", f.key(), word, c04DocFreq()[word], k+1, diffResults(first, got))}
+		}
+	}
+	lic := licensesOnly(rawList(first))
+	own := false
+	for _, m := range lic {
+		if m.Name == f.Name {
+			own = true
+		}
+	}
+	classes := []string{}
+	if !own {
+		classes = append(classes, "own-license-no-longer-reported")
+	}
+	return lib.Outcome{Nontrivial: true, Classes: classes, Sample: map[string]interface{}{"document": f.key(), "word": word, "df": c04DocFreq()[word], "result": fmtRecs(rawList(first))}}
+}
+
+func TestVerif_C04_RareWords(t *testing.T) {
+	lib.Run(t, lib.Spec{ID: "C04", Part: "rare-word-substitution",
+		Rule: "every embedded document with one of its 5 (quick) / 12 (thorough) rarest words (document frequency over the corpus) replaced by an unrelated word, matched 5 / 10 times in a row on the full corpus at 0.8: all calls identical (whatever the answer is); non-trivial = every case",
+		New:  func() interface{} { return &c04Rare{} }, Enum: c04RareEnum, Check: c04RareCheck, Exhaustive: true})
 }
